@@ -55,7 +55,7 @@ def gen_cases(tier, seed):
                 lst.append({'kind': kind, 'ending': ['terminate'], 'first': acc})
     # timed accessors used first (the race between the caller's and the collector thread's waitpid)
     for acc in ('join-t', 'result-t', 'exception-t'):
-        for rep in range(2 if tier == 'quick' else 8):
+        for rep in range(5 if tier == 'quick' else 12):
             sig.append({'kind': 'process', 'ending': ['signal', 'SIGKILL', 'before'], 'first': acc, 'rep': rep})
             sig.append({'kind': 'process', 'ending': ['signal', 'SIGKILL', 'during'], 'first': acc, 'rep': rep})
         prc.append({'kind': 'process', 'ending': ['return', 0], 'first': acc})
